@@ -10,15 +10,22 @@ MC_BaseCalls == <<
     Call("MkVec", 0, 0, "continuous", B(NoneQ, NoneQ), 3, 0, 0, "x"),
     Call("MkVec", 0, 0, "continuous", B(NoneQ, NoneQ), 3, 0, 0, "y"),
     Call("MkVec", 0, 0, "continuous", B(NoneQ, NoneQ), 2, 0, 0, "z"),
-    Call("MkPar", 0, 0, "", LitS("float", Q(3, 2)), 1, 0, 0, "p")
+    Call("MkPar", 0, 0, "", LitS("float", Q(3, 2)), 1, 0, 0, "p"),
+    \* scalar nodes with a vectorised Jacobian row: "budget - cost @ x >= 0" is written on top of them
+    Call("Sum", 3, 0, "", NoLit, 0, 0, 0, ""),
+    Call("LinComb", 3, 0, "", Lit("arr", <<Q(1,1), Q(-2,1), Q(3,1)>>, <<3>>), 0, 0, 0, ""),
+    Call("Dot", 3, 4, "", NoLit, 0, 0, 0, "")
   >>
 MC_AllNames == {<<"s">>, <<"t">>, <<"x", 0>>, <<"x", 1>>, <<"x", 2>>, <<"y", 0>>, <<"y", 1>>, <<"y", 2>>, <<"z", 0>>, <<"z", 1>>}
-MC_En == {"Cmp", "CmpLit", "VBinLit", "SBinLit", "SBin", "Fn", "Slice"}
+MC_En == {"Cmp", "CmpLit", "VBinLit", "SBinLit", "SRBinLit", "SBin", "Fn", "Slice"}
 MC_ScalarLits == {LitS("int", Q(2, 1)), LitS("float", Q(-5, 2)), LitS("bool", Q(1, 1)), LitS("npf64", Q(3, 1)),
                   LitS("npi64", Q(2, 1)), LitS("npf32", Q(1, 2))}
 MC_ArrayLits == {Lit("arr", <<Q(1,1), Q(-2,1), Q(3,1)>>, <<3>>), Lit("arr", <<Q(4,1), Q(-1,1)>>, <<2>>),
                  Lit("list", <<Q(1,2), Q(2,1), Q(-3,1)>>, <<3>>), Lit("arri", <<Q(2,1), Q(5,1), Q(0,1)>>, <<3>>),
                  Lit("arr", <<Q(1,1), Q(2,1), Q(3,1), Q(4,1), Q(5,1), Q(6,1)>>, <<2, 3>>)}
+MC_ScalarLitsSmall == {LitS("int", Q(2, 1)), LitS("npf64", Q(3, 1))}      \* thorough tier: one call deeper
+MC_ArrayLitsSmall == {Lit("arr", <<Q(1,1), Q(-2,1), Q(3,1)>>, <<3>>)}
+MC_SensesSmall == {"<=", "=="}
 MC_Slices == { <<0, 2, NoneI>>, <<NoneI, NoneI, -1>> }
 MC_Indices == {}
 MC_Fns == {"exp"}
